@@ -28,6 +28,12 @@ type Value interface{}
 type strV struct {
 	s      string
 	opaque bool
+	ite    *strIte // symbolic choice between two concrete strings
+}
+
+type strIte struct {
+	c    *Term
+	a, b string
 }
 type floatV float64
 type structV []Value
@@ -250,6 +256,9 @@ func (ex *Exec) iteVal(c *Term, a, b Value) (Value, bool) {
 		if ok && x == y {
 			return x, true
 		}
+		if ok && !x.opaque && !y.opaque && x.ite == nil && y.ite == nil {
+			return strV{ite: &strIte{c: c, a: x.s, b: y.s}}, true
+		}
 		return nil, false
 	case floatV:
 		y, ok := b.(floatV)
@@ -349,6 +358,22 @@ func (ex *Exec) eqVal(a, b Value) *Term {
 		}
 		if x.opaque || y.opaque {
 			panic(unsupported("comparison of opaque string"))
+		}
+		if x.ite != nil || y.ite != nil {
+			xa, xb, xc := x.s, x.s, tc.tt
+			if x.ite != nil {
+				xa, xb, xc = x.ite.a, x.ite.b, x.ite.c
+			}
+			ya, yb, yc := y.s, y.s, tc.tt
+			if y.ite != nil {
+				ya, yb, yc = y.ite.a, y.ite.b, y.ite.c
+			}
+			r := tc.ff
+			r = tc.Or(r, tc.And(tc.And(xc, yc), tc.Bool(xa == ya)))
+			r = tc.Or(r, tc.And(tc.And(xc, tc.Not(yc)), tc.Bool(xa == yb)))
+			r = tc.Or(r, tc.And(tc.And(tc.Not(xc), yc), tc.Bool(xb == ya)))
+			r = tc.Or(r, tc.And(tc.And(tc.Not(xc), tc.Not(yc)), tc.Bool(xb == yb)))
+			return r
 		}
 		return tc.Bool(x.s == y.s)
 	case floatV:
